@@ -9,15 +9,15 @@ CFG = dict(
          "on/off; the value vector of each configuration holds every letter of the alphabet, its neighbours (+-1; "
          "f64: adjacent binary64 values and +-0.25), the type's MIN/MAX (f64: +-inf, +-MAX, -0.0, 5e-324), random "
          "values and nulls; element types i32, Option<i32>, f64; label types i32, Option<i32>, f64; Vec / VecDeque / "
-         "ndarray containers; plus 600 (thorough 4000) random configurations with up to 10 edges and matching "
+         "ndarray containers; plus 1500 (thorough 5000) random configurations with up to 10 edges and matching "
          "label count. unique: every series over {1,2,3} with a null prefix and/or suffix of every length up to "
          "len 7 (thorough 9) - sorted ascending, descending, constant and unsorted - every series over {null,1,2} "
-         "with an inner null up to len 6 (thorough 8), 300 (thorough 1500) long sorted series with runs up to 12, "
+         "with an inner null up to len 6 (thorough 8), 600 (thorough 2000) long sorted series with runs up to 12, "
          "null blocks and the type's extremes; each case runs vsorted_unique_idx(First), (Last) and vsorted_unique; "
          "element types i32, Option<i32>, f64; Vec / VecDeque / ndarray. All compared exactly with the model; "
          "non-trivial = distinct case descriptions not tagged nt=0 (empty / all-null input)",
     theorem_hint="Props/C14.v: C14_cut_*, C14_unique_*",
-    level_text="Proof: theorems of Props/C14.v (axiom-free, over Z with an explicit null) about the Gallina model of vcut, "
+    level_text="Proof: 18 theorems of Props/C14.v (axiom-free, over Z with an explicit null) about the Gallina model of vcut, "
                "vsorted_unique_idx and vsorted_unique: for strictly ascending edges and a matching label count a "
                "non-null value gets label j iff interval j contains it, that interval is unique, Err iff no interval "
                "contains it, null gives the null label, a wrong label count gives Err, with open outer bounds every "
